@@ -598,6 +598,10 @@ pub fn part(run: &mut Run, thorough: bool, owned: &[&str]) {
     let family_thorough = thorough && !crate::common::is_sub();
     let mut specs = enumerate_structures(family_thorough);
     specs.sort_by_key(StructSpec::omega);
+    if crate::common::is_sub() && !thorough {
+        // reduced run on the second configuration in the quick tier: every 6th structure
+        specs = specs.into_iter().step_by(6).collect();
+    }
     let cap: f64 = std::env::var("VERIF_CAP_SECS").ok().and_then(|s| s.parse().ok()).unwrap_or(if thorough { 720.0 } else { 50.0 });
     let t0 = std::time::Instant::now();
     let skipped = std::sync::atomic::AtomicUsize::new(0);
